@@ -151,7 +151,13 @@ func newOrc(env *Env, seed uint64, spec orcSpec, mutateCfg func(*ChainCfg)) *orc
 		}
 		p.Rules = p.Rules[:1]
 		for _, r := range spec.Rules {
-			p.Rules = append(p.Rules, &oracletypes.RuleSource{SourceIDs: r})
+			rs := &oracletypes.RuleSource{SourceIDs: r}
+			if len(r) == 0 {
+				// a rule without SourceIDs must carry a Nom part (RuleSource.validate); CheckRules ignores it
+				// ("TODO: check NOM") and accepts every source list: the model's empty rule
+				rs.Nom = &oracletypes.NOMSource{SourceIDs: []uint64{1}, Minimum: 1}
+			}
+			p.Rules = append(p.Rules, rs)
 		}
 		p.Tokens = p.Tokens[:1]
 		for i, d := range spec.TokenDec {
